@@ -13,7 +13,7 @@ import numpy as np
 
 ID = "C19"
 LEVEL = "exploration"
-SYSTEMS = ["pm_pend", "spring_pend", "free_top", "rb_pend", "pm_chain", "double_pend", "slider_crank"]
+SYSTEMS = ["pm_pend", "spring_pend", "free_top", "rb_pend", "pm_chain", "double_pend", "slider_crank", "spring_pend_c"]
 NONINTEGRABLE = {"double_pend", "pm_chain"}
 SPRING = {"slider_crank": True}
 NOGRAV = {"free_top"}
@@ -23,7 +23,7 @@ T_ORD = 2.0
 T_LONG = {"quick": 8.0, "thorough": 40.0}
 T_REV = 1.0
 RULE = (
-    "conservative systems (7: point-mass pendulum/FixedDistance, elastic pendulum (force-form spring, no constraint), torque-free rigid body, "
+    "conservative systems (8: point-mass pendulum/FixedDistance, elastic pendulum (force-form spring and compliance-form spring, no constraint), torque-free rigid body, "
     "rigid-body pendulum/Revolute, chain of 3 point masses, double pendulum/Spherical+Revolute, closed slider-crank loop with force-form spring) "
     "x 2 generic consistent initial velocities (moderate, fast; the seed rotates the letters; plus release from rest for the two rigid-body pendulums) x parts {order: dt=.01,.005,.0025 over T=2; "
     "drift: T=8 at dt=.02 (quick) / T=40 at all three dt (thorough); reverse: 1 s forward + 1 s back at each dt}; one case = one part; "
